@@ -195,7 +195,7 @@ def cases(tier):
     if tier == "quick":
         grid = [(2, True), (3, True), (4, True), (5, True), (3, False)]
     else:
-        grid = [(2, True), (3, True), (4, True), (5, True), (6, True), (2, False), (3, False), (4, False)]
+        grid = [(2, True), (3, True), (4, True), (5, True), (6, True), (7, True), (2, False), (3, False), (4, False), (5, False)]
     for n, uni in grid:
         tag = f"n{n}_{'uniform' if uni else 'nonuniform'}"
         b = {"knots": n, "grid": "uniform" if uni else "symbolic spacings in [1/8,4]"}
